@@ -116,11 +116,11 @@ def _crashes(r):
     return r.get('status') in ('panic', 'crash', 'timeout')
 
 
-def search(pid, unit, failure, tier='quick', seed=0):
+def search(pid, unit, failure, tier='quick', seed=0, deadline=None):
     exe, err = replayrun.build()
     if exe is None:
         return None
-    deadline = time.time() + BUDGET_S.get(tier, 25)
+    deadline = deadline or (time.time() + BUDGET_S.get(tier, 25))
     rng = random.Random(seed or 1)
     if unit in DELTA_UNITS:
         if pid == 'C17':
@@ -164,6 +164,18 @@ def replay(w):
         r = replayrun.run(w['mode'], data, timeout=30)
         if w['mode'] == 'delta' and 'expect_result' not in w:
             return _crashes(r)
+        if 'expect_literal' in w:
+            from . import witness_literals
+            return not witness_literals.verdict_ok(w['expect_literal'], r)
+        if 'expect_cycle' in w:
+            from . import witness_order
+            return not witness_order.verdict_ok(w['expect_cycle'], r)
+        if w.get('expect_modules'):
+            from . import witness_modules
+            return not witness_modules.replay_ok(w, r)
+        if w.get('expect_deterministic'):
+            from . import witness_determinism
+            return witness_determinism.replay_differs(w)
         if w.get('expect_verdict_layout'):
             from . import witness_layout
             return not witness_layout.verdict_ok(w['expect_verdict_layout'], r)
